@@ -37,7 +37,7 @@ CfgCanon == [null |-> "NONE", empty |-> "NONE", emptylist |-> "NONE", kv |-> "kv
 MatrixCanon == [nil |-> "NONE", empty |-> "NONE", empty_alloc |-> "NONE", list_ab |-> "list_ab", list_ac |-> "list_ac", setup_os |-> "setup_os", setup_os2 |-> "setup_os2",
                 dim_arch |-> "dim_arch", list_linux |-> "list_linux", shadow_a |-> "shadow_a", shadow_b |-> "shadow_b", adj_tomb_v |-> "adj_tomb_v", adj_tomb_w |-> "adj_tomb_w",
                 dims_empty |-> "dims_empty", dims_empty2 |-> "dims_empty2", dims_mixed_a |-> "dims_mixed_a", dims_mixed_b |-> "dims_mixed_b",
-                anon_plus_a |-> "anon_plus_a", anon_plus_b |-> "anon_plus_b", anon_adj_a |-> "anon_adj_a", anon_adj_b |-> "anon_adj_b", skiponly_t |-> "skiponly_t", skiponly_f |-> "skiponly_f", skiponly_s |-> "skiponly_s", setup_os_eadj |-> "setup_os", setup_os_erem |-> "setup_os", adj_base_erem |-> "adj_base", adj_base |-> "adj_base", adj_with2 |-> "adj_with2", adj_skip |-> "adj_skip", adj_extra |-> "adj_extra"]
+                anon_plus_a |-> "anon_plus_a", anon_plus_b |-> "anon_plus_b", anon_adj_a |-> "anon_adj_a", anon_adj_b |-> "anon_adj_b", skiponly_t |-> "skiponly_t", skiponly_t_es |-> "skiponly_t", skiponly_f |-> "skiponly_f", skiponly_s |-> "skiponly_s", setup_os_eadj |-> "setup_os", setup_os_erem |-> "setup_os", adj_base_erem |-> "adj_base", adj_base |-> "adj_base", adj_with2 |-> "adj_with2", adj_skip |-> "adj_skip", adj_extra |-> "adj_extra"]
 
 CanonEnv(e) == e.m                                         \* nil and empty are both the empty function
 \* names of the tables denote shapes; anything else is a literal (a source as written / a string config)
